@@ -5,22 +5,20 @@ import (
 	"go/ast"
 	"go/token"
 	"go/types"
+	"regexp"
 	"sort"
+	"strconv"
+	"strings"
 )
 
 type drySnapshot struct {
-	nObls, nFacts  int
-	counters       map[string]int
-	loopOrd, ret   int
-	frames         []*jumpFrame
-	dry            bool
-	dryStates      []*State
-	nUnsupported   int
-	abstracted     bool
-	defers         int
+	nObls, nFacts int
+	counters      map[string]int
+	loopOrd, ret  int
+	frames        []*jumpFrame
+	defers        int
+	nUnsupported  int
 }
-
-var _ = sort.Strings
 
 type dryInfo struct {
 	on     bool
@@ -46,53 +44,6 @@ func (fv *FuncVC) restore(s drySnapshot) {
 	fv.defers = fv.defers[:s.defers]
 }
 
-// modifiedHeaps runs the loop body once from a havocked copy of st and reports which heaps
-// can change (nil,true when everything may change).
-func (fv *FuncVC) modifiedHeaps(st *State, run func(s *State, f *jumpFrame) *State) (map[string]bool, bool) {
-	snap := fv.snapshot()
-	start := st.clone()
-	// materialise all known heaps so that changes are visible
-	names := make([]string, 0, len(fv.heapSort))
-	for h := range fv.heapSort {
-		names = append(names, h)
-	}
-	sort.Strings(names)
-	for _, h := range names {
-		fv.getHeap(start, h)
-	}
-	wasDry := fv.dry.on
-	savedStates := fv.dry.states
-	fv.dry.on = true
-	fv.dry.states = nil
-	frame := &jumpFrame{isLoop: true}
-	fv.frames = append(fv.frames, frame)
-	work := start.clone()
-	end := run(work, frame)
-	outs := append([]*State{end}, frame.breaks...)
-	outs = append(outs, frame.continues...)
-	outs = append(outs, fv.dry.states...)
-	fv.dry.on = wasDry
-	fv.dry.states = savedStates
-	fv.restore(snap)
-	mod := map[string]bool{}
-	all := false
-	for _, o := range outs {
-		if o == nil || o.dead() {
-			continue
-		}
-		if o.epoch != start.epoch {
-			all = true
-		}
-		for h, t := range o.heaps {
-			if bt, ok := start.heaps[h]; !ok || bt != t {
-				mod[h] = true
-			}
-		}
-	}
-	// heaps first declared during the dry run and changed
-	return mod, all
-}
-
 func (fv *FuncVC) loopContract(ord int) *LoopContract {
 	if fv.fi.Contract == nil {
 		return nil
@@ -101,9 +52,9 @@ func (fv *FuncVC) loopContract(ord int) *LoopContract {
 }
 
 type loopCtx struct {
-	ord      int
-	lc       *LoopContract
-	autoInv  []autoInv
+	ord     int
+	lc      *LoopContract
+	autoInv []autoInv
 }
 
 type autoInv struct {
@@ -139,33 +90,174 @@ func (fv *FuncVC) assumeInvariants(lx *loopCtx, st *State) {
 	}
 }
 
-// havocLoopTargets forgets the variables and heaps the loop may change.
-func (fv *FuncVC) havocLoopTargets(st *State, vars []types.Object, mod map[string]bool, all bool) {
-	for _, o := range vars {
-		if _, ok := st.vars[o]; ok {
-			st.vars[o] = fv.havocVal(st, o.Name(), o.Type())
-		}
-	}
-	if all {
-		fv.havocAllHeaps(st)
-		return
-	}
-	names := make([]string, 0, len(mod))
-	for h := range mod {
-		names = append(names, h)
-	}
-	sort.Strings(names)
-	for _, h := range names {
-		fv.havocHeap(st, h)
-	}
-}
-
 func (fv *FuncVC) variant(lx *loopCtx, st *State) (string, bool) {
 	if lx.lc == nil || lx.lc.Decreases == nil || fv.mode != "full" {
 		return "", false
 	}
 	v := fv.specEval(lx.lc.Decreases.Expr, fv.specScope(st, fv.entry, false))
 	return v.T, true
+}
+
+type loopSpec struct {
+	lx       *loopCtx
+	label    string
+	pos      token.Pos
+	vars     []types.Object
+	prepHead func(head *State)
+	// body evaluates the loop condition, runs one iteration (including the post statement) and
+	// returns the state at the end of the iteration and the state in which the loop exits normally.
+	body func(s *State, f *jumpFrame) (end, exit *State)
+}
+
+var bangNum = regexp.MustCompile(`!(\d+)`)
+
+// stableTerm: the term mentions no constant created after mark (it denotes the same value in
+// every iteration).
+func stableTerm(t string, mark int) bool {
+	if strings.Contains(t, "?") {
+		return false
+	}
+	for _, m := range bangNum.FindAllStringSubmatch(t, -1) {
+		n, _ := strconv.Atoi(m[1])
+		if n > mark {
+			return false
+		}
+	}
+	return true
+}
+
+// runLoop is the loop rule: invariants hold on entry; an arbitrary iteration starts from a state in
+// which the assigned variables and the written heap locations are unknown but the invariants hold;
+// the invariants hold again after the iteration.
+//
+// Frame inferred per heap from the store log of one symbolic iteration (sound by construction):
+// objects allocated before the loop and never the target of a store keep their contents.
+func (fv *FuncVC) runLoop(ls *loopSpec, st *State) *State {
+	lx := ls.lx
+	fv.curPos = ls.pos
+	fv.checkInvariants(lx, st, "init")
+	if st.dead() {
+		return st
+	}
+	mark := fv.th.fresh
+	head := st.clone()
+	for _, o := range ls.vars {
+		if _, ok := head.vars[o]; ok {
+			head.vars[o] = fv.havocVal(head, o.Name(), o.Type())
+		}
+	}
+	known := make([]string, 0, len(fv.heapSort))
+	for h := range fv.heapSort {
+		known = append(known, h)
+	}
+	sort.Strings(known)
+	pre := map[string]string{}
+	for _, h := range known {
+		pre[h] = fv.getHeap(st, h)
+		head.heaps[h] = fv.th.freshConst(sanitize(h)+"$head", fv.heapSort[h])
+	}
+	if ls.prepHead != nil {
+		ls.prepHead(head)
+	}
+	// one symbolic iteration, discarded, to learn what the loop writes
+	snap := fv.snapshot()
+	logStart := len(fv.storeLog)
+	wasDry, savedStates := fv.dry.on, fv.dry.states
+	fv.dry.on, fv.dry.states = true, nil
+	dframe := &jumpFrame{isLoop: true, label: ls.label}
+	fv.frames = append(fv.frames, dframe)
+	ls.body(head.clone(), dframe)
+	fv.dry.on, fv.dry.states = wasDry, savedStates
+	log := append([]storeRec(nil), fv.storeLog[logStart:]...)
+	fv.storeLog = fv.storeLog[:logStart]
+	fv.restore(snap)
+
+	all := false
+	byHeap := map[string][]string{}
+	for _, r := range log {
+		if r.heap == "*" {
+			all = true
+			continue
+		}
+		byHeap[r.heap] = append(byHeap[r.heap], r.ref)
+	}
+	// heaps first declared during the iteration
+	var newHeaps []string
+	for h := range fv.heapSort {
+		if _, ok := pre[h]; !ok {
+			newHeaps = append(newHeaps, h)
+		}
+	}
+	sort.Strings(newHeaps)
+	for _, h := range newHeaps {
+		if len(byHeap[h]) == 0 && !all {
+			continue // only read: materialises lazily to the pre-loop value
+		}
+		pre[h] = fv.getHeap(st, h)
+		head.heaps[h] = fv.th.freshConst(sanitize(h)+"$head", fv.heapSort[h])
+		known = append(known, h)
+	}
+	allocPre := pre["alloc"]
+	for _, h := range known {
+		H := head.heaps[h]
+		recs := byHeap[h]
+		if all {
+			if h == "alloc" {
+				fv.addFact(head, fmt.Sprintf("(forall ((r Ref)) (! (=> (select %s r) (select %s r)) :pattern ((select %s r))))", pre[h], H, pre[h]))
+			}
+			continue
+		}
+		if len(recs) == 0 {
+			fv.addFact(head, mkEq(H, pre[h]))
+			continue
+		}
+		framable := true
+		var W []string
+		seen := map[string]bool{}
+		for _, r := range recs {
+			if r == "*" {
+				framable = false
+				break
+			}
+			if fv.freshRefs[r] && !stableTerm(r, mark) {
+				continue // allocated inside the iteration
+			}
+			if !stableTerm(r, mark) {
+				framable = false
+				break
+			}
+			if !seen[r] {
+				seen[r] = true
+				W = append(W, r)
+			}
+		}
+		if !framable {
+			if h == "alloc" {
+				fv.addFact(head, fmt.Sprintf("(forall ((r Ref)) (! (=> (select %s r) (select %s r)) :pattern ((select %s r))))", pre[h], H, pre[h]))
+			}
+			continue
+		}
+		conds := []string{sx("select", allocPre, "r")}
+		for _, w := range W {
+			conds = append(conds, mkNot(mkEq("r", w)))
+		}
+		fv.addFact(head, fmt.Sprintf("(forall ((r Ref)) (! (=> %s (= (select %s r) (select %s r))) :pattern ((select %s r))))", mkAnd(conds...), H, pre[h], H))
+	}
+	fv.assumeInvariants(lx, head)
+	v0, hasVar := fv.variant(lx, head)
+
+	frame := &jumpFrame{label: ls.label, isLoop: true}
+	fv.frames = append(fv.frames, frame)
+	end, exit := ls.body(head.clone(), frame)
+	fv.curPos = ls.pos
+	fv.checkInvariants(lx, end, "pres")
+	if hasVar && !end.dead() {
+		v1, _ := fv.variant(lx, end)
+		fv.oblig(end, "dec", fmt.Sprintf("dec:%d", lx.ord), lx.lc.Decreases.Text, mkAnd(sx("<=", "0", v0), sx("<", v1, v0)))
+	}
+	fv.frames = fv.frames[:len(fv.frames)-1]
+	outs := append([]*State{exit}, frame.breaks...)
+	return fv.nameGuard(fv.merge(outs))
 }
 
 func (fv *FuncVC) execFor(x *ast.ForStmt, st *State) *State {
@@ -177,7 +269,7 @@ func (fv *FuncVC) execFor(x *ast.ForStmt, st *State) *State {
 	label := fv.pendingLabel
 	fv.pendingLabel = ""
 
-	// auto invariant: for i := e0; ...; i++ with i not assigned in the body:  e0 <= i
+	// auto invariant: for i := e0; ...; i++ with i not assigned in the body:  e0 <= i  (checked like any other)
 	if as, ok := x.Init.(*ast.AssignStmt); ok && as.Tok == token.DEFINE && len(as.Lhs) == 1 {
 		if id, ok := as.Lhs[0].(*ast.Ident); ok {
 			if inc, ok := x.Post.(*ast.IncDecStmt); ok && inc.Tok == token.INC {
@@ -193,7 +285,7 @@ func (fv *FuncVC) execFor(x *ast.ForStmt, st *State) *State {
 						if v0, ok := st.vars[o]; ok {
 							start := v0.T
 							lx.autoInv = append(lx.autoInv, autoInv{
-								text: fmt.Sprintf("%s >= (initial value)", id.Name),
+								text: fmt.Sprintf("%s >= (its initial value)", id.Name),
 								term: func(s *State) string { return sx("<=", start, s.vars[o].T) },
 							})
 						}
@@ -202,10 +294,16 @@ func (fv *FuncVC) execFor(x *ast.ForStmt, st *State) *State {
 			}
 		}
 	}
-
-	runBody := func(s *State, f *jumpFrame) *State {
+	vars := assignedVars(fv.info, x.Body)
+	if x.Post != nil {
+		vars = append(vars, assignedVars(fv.info, x.Post)...)
+	}
+	ls := &loopSpec{lx: lx, label: label, pos: x.Pos(), vars: vars}
+	ls.body = func(s *State, f *jumpFrame) (*State, *State) {
+		exit := fv.deadState()
 		if x.Cond != nil {
 			c := fv.eval(x.Cond, s)
+			exit = s.withGuard(mkNot(c.T))
 			s = s.withGuard(c.T)
 		}
 		s = fv.execBlock(x.Body.List, s)
@@ -214,61 +312,9 @@ func (fv *FuncVC) execFor(x *ast.ForStmt, st *State) *State {
 		if x.Post != nil && !m.dead() {
 			m = fv.exec(x.Post, m)
 		}
-		return m
+		return m, exit
 	}
-	var loopNode ast.Node = x.Body
-	vars := assignedVars(fv.info, loopNode)
-	if x.Post != nil {
-		vars = append(vars, assignedVars(fv.info, x.Post)...)
-	}
-	mod, all := fv.modifiedHeaps(fv.havocCopy(st, vars), runBody)
-
-	fv.curPos = x.Pos()
-	fv.checkInvariants(lx, st, "init")
-	head := st.clone()
-	fv.havocLoopTargets(head, vars, mod, all)
-	fv.assumeInvariants(lx, head)
-	v0, hasVar := fv.variant(lx, head)
-
-	frame := &jumpFrame{label: label, isLoop: true}
-	fv.frames = append(fv.frames, frame)
-	var condT string = "true"
-	bodySt := head.clone()
-	if x.Cond != nil {
-		c := fv.eval(x.Cond, bodySt)
-		condT = c.T
-		// the condition may have had side effects on bodySt (calls); exit state shares them
-		head = bodySt.clone()
-		bodySt = bodySt.withGuard(condT)
-	}
-	end := fv.execBlock(x.Body.List, bodySt)
-	m := fv.merge(append([]*State{end}, frame.continues...))
-	if x.Post != nil && !m.dead() {
-		m = fv.exec(x.Post, m)
-	}
-	fv.curPos = x.Pos()
-	fv.checkInvariants(lx, m, "pres")
-	if hasVar && !m.dead() {
-		v1, _ := fv.variant(lx, m)
-		fv.oblig(m, "dec", fmt.Sprintf("dec:%d", lx.ord), lx.lc.Decreases.Text, mkAnd(sx("<=", "0", v0), sx("<", v1, v0)))
-	}
-	fv.frames = fv.frames[:len(fv.frames)-1]
-	exit := head.withGuard(mkNot(condT))
-	if x.Cond == nil {
-		exit = fv.deadState()
-	}
-	return fv.nameGuard(fv.merge(append([]*State{exit}, frame.breaks...)))
-}
-
-// havocCopy: a copy of st with the given variables havocked (used by the dry run).
-func (fv *FuncVC) havocCopy(st *State, vars []types.Object) *State {
-	c := st.clone()
-	for _, o := range vars {
-		if _, ok := c.vars[o]; ok {
-			c.vars[o] = fv.havocVal(c, o.Name(), o.Type())
-		}
-	}
-	return c
+	return fv.runLoop(ls, st)
 }
 
 func (fv *FuncVC) bindRangeVar(e ast.Expr, define bool, v Val, st *State) {
@@ -300,6 +346,7 @@ func (fv *FuncVC) execRange(x *ast.RangeStmt, st *State) *State {
 	if !define {
 		vars = append(vars, assignedVars(fv.info, x)...)
 	}
+	it := types.Typ[types.Int]
 
 	switch u := xt.Underlying().(type) {
 	case *types.Slice, *types.Array, *types.Basic:
@@ -314,6 +361,7 @@ func (fv *FuncVC) execRange(x *ast.RangeStmt, st *State) *State {
 			}
 		}
 		coll := fv.eval(x.X, st)
+		coll = fv.named(coll, "rangeover")
 		var n string
 		if isInt {
 			n = coll.T
@@ -324,9 +372,17 @@ func (fv *FuncVC) execRange(x *ast.RangeStmt, st *State) *State {
 		if lx.lc != nil && lx.lc.Index != "" {
 			idxName = lx.lc.Index
 		}
-		st.ghosts[idxName] = Val{"0", SInt, types.Typ[types.Int]}
-		runBody := func(s *State, f *jumpFrame) *State {
+		st.ghosts[idxName] = Val{"0", SInt, it}
+		ls := &loopSpec{lx: lx, label: label, pos: x.Pos(), vars: vars}
+		ls.prepHead = func(head *State) {
+			idx := fv.th.freshConst(idxName, SInt)
+			head.ghosts[idxName] = Val{idx, SInt, it}
+			// the hidden index always stays within [0, n]: sound by construction of range loops
+			fv.addFact(head, mkAnd(sx("<=", "0", idx), sx("<=", idx, n)))
+		}
+		ls.body = func(s *State, f *jumpFrame) (*State, *State) {
 			idx := s.ghosts[idxName]
+			exit := s.withGuard(mkNot(sx("<", idx.T, n)))
 			s = s.withGuard(sx("<", idx.T, n))
 			fv.bindRangeVar(x.Key, define, idx, s)
 			if x.Value != nil && !isInt {
@@ -336,39 +392,15 @@ func (fv *FuncVC) execRange(x *ast.RangeStmt, st *State) *State {
 			m := fv.merge(append([]*State{s}, f.continues...))
 			f.continues = nil
 			if !m.dead() {
-				m.ghosts[idxName] = Val{sx("+", idx.T, "1"), SInt, types.Typ[types.Int]}
+				m.ghosts[idxName] = Val{sx("+", idx.T, "1"), SInt, it}
 			}
-			return m
+			return m, exit
 		}
-		dryStart := fv.havocCopy(st, vars)
-		dryStart.ghosts[idxName] = Val{fv.th.freshConst(idxName, SInt), SInt, types.Typ[types.Int]}
-		mod, all := fv.modifiedHeaps(dryStart, runBody)
-
-		fv.curPos = x.Pos()
-		fv.checkInvariants(lx, st, "init")
-		head := st.clone()
-		fv.havocLoopTargets(head, vars, mod, all)
-		idx := fv.th.freshConst(idxName, SInt)
-		head.ghosts[idxName] = Val{idx, SInt, types.Typ[types.Int]}
-		// the hidden index always stays within [0, n]: sound by construction of range loops
-		fv.addFact(head, mkAnd(sx("<=", "0", idx), sx("<=", idx, n)))
-		fv.assumeInvariants(lx, head)
-		v0, hasVar := fv.variant(lx, head)
-		frame := &jumpFrame{label: label, isLoop: true}
-		fv.frames = append(fv.frames, frame)
-		m := runBody(head.clone(), frame)
-		fv.curPos = x.Pos()
-		fv.checkInvariants(lx, m, "pres")
-		if hasVar && !m.dead() {
-			v1, _ := fv.variant(lx, m)
-			fv.oblig(m, "dec", fmt.Sprintf("dec:%d", lx.ord), lx.lc.Decreases.Text, mkAnd(sx("<=", "0", v0), sx("<", v1, v0)))
-		}
-		fv.frames = fv.frames[:len(fv.frames)-1]
-		exit := head.withGuard(mkNot(sx("<", idx, n)))
-		out := fv.nameGuard(fv.merge(append([]*State{exit}, frame.breaks...)))
+		out := fv.runLoop(ls, st)
 		return out
 	case *types.Map:
 		m := fv.eval(x.X, st)
+		m = fv.named(m, "rangeover")
 		ks, vs := fv.th.sortOf(u.Key()), fv.th.sortOf(u.Elem())
 		d, vh, _ := fv.declMapHeaps(ks, vs)
 		visName := fmt.Sprintf("visited%d", lx.ord)
@@ -377,16 +409,25 @@ func (fv *FuncVC) execRange(x *ast.RangeStmt, st *State) *State {
 		}
 		visSort := arraySort(ks, SBoolS)
 		visGo := types.NewMap(u.Key(), types.Typ[types.Bool])
-		st.ghosts[visName] = Val{fmt.Sprintf("((as const %s) false)", visSort), visSort, visGo}
-		runBody := func(s *State, f *jumpFrame) *State {
+		st.ghosts[visName] = Val{fv.th.constArr(ks, SBoolS, "false"), visSort, visGo}
+		ls := &loopSpec{lx: lx, label: label, pos: x.Pos(), vars: vars}
+		ls.prepHead = func(head *State) {
+			vis := fv.th.freshConst(visName, visSort)
+			head.ghosts[visName] = Val{vis, visSort, visGo}
+		}
+		mutated := false
+		ls.body = func(s *State, f *jumpFrame) (*State, *State) {
 			vis := s.ghosts[visName]
-			dom := sx("select", fv.getHeap(s, d), m.T)
+			D0 := fv.getHeap(s, d)
+			dom := sx("select", D0, m.T)
+			// visited ⊆ domain
+			fv.addFact(s, fmt.Sprintf("(forall ((k %s)) (! (=> (select %s k) (select %s k)) :pattern ((select %s k))))", ks, vis.T, dom, vis.T))
 			k := fv.th.freshConst("key", ks)
 			more := fv.th.freshConst("more", SBoolS)
 			fv.addFact(s, mkImp(more, mkAnd(mkNot(mkEq(m.T, "nil")), sx("select", dom, k), mkNot(sx("select", vis.T, k)))))
 			fv.addFact(s, mkImp(mkNot(more), mkOr(mkEq(m.T, "nil"),
 				fmt.Sprintf("(forall ((k %s)) (! (=> (select %s k) (select %s k)) :pattern ((select %s k))))", ks, dom, vis.T, dom))))
-			s.ghosts["$more"] = Val{more, SBoolS, nil}
+			exit := s.withGuard(mkNot(more))
 			s = s.withGuard(more)
 			kv := Val{k, ks, u.Key()}
 			fv.valueFacts(s, kv)
@@ -400,40 +441,33 @@ func (fv *FuncVC) execRange(x *ast.RangeStmt, st *State) *State {
 			mm := fv.merge(append([]*State{s}, f.continues...))
 			f.continues = nil
 			if !mm.dead() {
+				if fv.getHeap(mm, d) != D0 {
+					mutated = true
+				}
 				mm.ghosts[visName] = Val{sx("store", vis.T, k, "true"), visSort, visGo}
 			}
-			return mm
+			return mm, exit
 		}
-		dryStart := fv.havocCopy(st, vars)
-		dryStart.ghosts[visName] = Val{fv.th.freshConst(visName, visSort), visSort, visGo}
-		mod, all := fv.modifiedHeaps(dryStart, runBody)
-		if mod[d] {
-			fv.note("map mutated while ranging over it (%s)", fv.text(x.X))
+		out := fv.runLoop(ls, st)
+		if mutated {
+			// a map of the same key/value sorts is written in the body; if it is the ranged map itself the
+			// iteration model is not valid
+			fv.softNote("a map with the key/value types of %s is written while ranging over it", fv.text(x.X))
 		}
-		fv.curPos = x.Pos()
-		fv.checkInvariants(lx, st, "init")
-		head := st.clone()
-		fv.havocLoopTargets(head, vars, mod, all)
-		vis := fv.th.freshConst(visName, visSort)
-		head.ghosts[visName] = Val{vis, visSort, visGo}
-		dom := sx("select", fv.getHeap(head, d), m.T)
-		fv.addFact(head, fmt.Sprintf("(forall ((k %s)) (! (=> (select %s k) (select %s k)) :pattern ((select %s k))))", ks, vis, dom, vis))
-		fv.assumeInvariants(lx, head)
-		frame := &jumpFrame{label: label, isLoop: true}
-		fv.frames = append(fv.frames, frame)
-		work := head.clone()
-		mm := runBody(work, frame)
-		more := work.ghosts["$more"].T
-		fv.curPos = x.Pos()
-		fv.checkInvariants(lx, mm, "pres")
-		fv.frames = fv.frames[:len(fv.frames)-1]
-		exit := head.clone()
-		exit.heaps = work.heaps // heaps materialised while evaluating the head
-		exit = exit.withGuard(mkNot(more))
-		return fv.nameGuard(fv.merge(append([]*State{exit}, frame.breaks...)))
+		return out
 	}
 	fv.note("range over %s", xt)
 	return fv.abstractLoop(x, x.Body, vars, st)
+}
+
+func (fv *FuncVC) softNote(format string, a ...interface{}) {
+	msg := fmt.Sprintf(format, a...)
+	for _, u := range fv.softNotes {
+		if u == msg {
+			return
+		}
+	}
+	fv.softNotes = append(fv.softNotes, msg)
 }
 
 func (fv *FuncVC) readElem(coll Val, i string, st *State) Val {
